@@ -38,4 +38,17 @@ META = {'C01': {'text': 'Model-based stateful property testing: random histories
                  'histories.',
          'design_ref': 'DESIGN.md §6 C07',
          'note': 'Trusts the reference model; snapshots are taken and restored through in-memory buffers (bytes.Buffer).',
-         'technique': 'model-based stateful property testing (rapid) with round-trip + reference-model oracle'}}
+         'technique': 'model-based stateful property testing (rapid) with round-trip + reference-model oracle'},
+ 'C11': {'text': 'Model-based stateful property testing of the allocator over fill patterns built to hit every branch of the free-slot search, plus '
+                 'generated concurrent insert/delete programs under real parallelism checked with unique tags. Exploration.',
+         'design_ref': 'DESIGN.md §6 C11',
+         'note': "Sequential part trusts the reference model; the parallel part's oracle (tags) is schedule-independent. In-flight visibility of "
+                 'reservations is known finding f10 and not asserted here.',
+         'technique': 'model-based stateful property testing (rapid) + generated concurrent programs with a history invariant'},
+ 'C12': {'text': 'Model-based stateful property testing of the key API against a reference map, with lookups of the whole key alphabet and a '
+                 'duplicate scan after every transaction. Exploration over bounded random histories; concurrent interleavings are explored by '
+                 'TestC12Sched when present.',
+         'design_ref': 'DESIGN.md §6 C12',
+         'note': 'Trusts the reference model. Two creating operations for one key in one transaction are known finding f17 and excluded by '
+                 'construction (counted).',
+         'technique': 'model-based stateful property testing (rapid) with reference-map oracle'}}
